@@ -13,6 +13,7 @@
    map order.  The typed-decoding fields of [compose_wire W1 W2] are literally those of W2. *)
 From Coq Require Import List NArith ZArith Bool Lia Permutation.
 From Verif Require Import Base.Outcome Gen.Consts Wire.Item Generic.Types Generic.Enc Generic.Dec C01.Model C01.Proofs C11.Corr C15.Model C15.Proofs.
+From Verif Require Import C01.ComposeSimple C01.ComposeMsgpack C01.ComposeCbor C01.ComposeCborTime C01.ComposeBinc C15.Concrete.
 From Verif Require Wire.Cbor C10.CborSpec C10.CborConv Wire.CborEnc Wire.Msgpack Wire.MsgpackProofs Wire.MsgpackRT Wire.Simple Wire.SimpleProofs Wire.Binc Wire.BincProofs.
 Import ListNotations.
 
@@ -150,6 +151,172 @@ Theorem C15_floats_kind : forall (e : Binc.eopts) (d : Binc.dopts) (O : Cbor.eop
 Proof. exact floats_kind. Qed.
 Print Assumptions C15_floats_kind.
 
+(* ---- C15_same per format, G = F: NO hypothesis on the drivers left ----
+
+   The side condition [keeps] of C15_same_generic_partial is PROVED for the concrete driver records of C01
+   (C01/Compose<Fmt>.v: built from the wire models Wire/<Fmt>.v, [wire_ok] proved there), same format and same
+   handle (one option vector) on both passes.  The typed decode of the second pass reads through the format's
+   own driver record (of_item W ..: the composite's typed-decoding fields are literally W's). *)
+
+Theorem C15_keeps_simple : forall (o : Simple.eopts) (D : Simple.dopts), keeps (W_simple_n o D) (W_simple o D).
+Proof. exact simple_keeps. Qed.
+Print Assumptions C15_keeps_simple.
+
+Theorem C15_keeps_msgpack : forall (Of : Msgpack.eopts) (D : Msgpack.dopts), keeps (W_msgpack Of D) (W_msgpack Of D).
+Proof. exact msgpack_keeps. Qed.
+Print Assumptions C15_keeps_msgpack.
+
+Theorem C15_keeps_binc : forall (e : Binc.eopts) (d : Binc.dopts), keeps (W_binc e d) (W_binc e d).
+Proof. exact binc_keeps. Qed.
+Print Assumptions C15_keeps_binc.
+
+Theorem C15_keeps_cbor_rfc3339 : forall (Oc : Cbor.eopts) (D : Cbor.dopts), keeps (W_cbor_t Oc D) (W_cbor_t Oc D).
+Proof. exact cbor_t_keeps. Qed.
+Print Assumptions C15_keeps_cbor_rfc3339.
+
+(* cbor's tag-1 driver record admits only the zero time (as C01_cbor_roundtrip_bytes_partial); a non-zero time,
+   outside the leaf premise, would come back as a tagged value, so the "tree has no RawExt" clause of [keeps] is
+   proved for the items the leaf premise admits ([keeps_on]) -- which is all C15_same uses *)
+Theorem C15_keeps_cbor_partial : forall (Oc : Cbor.eopts) (D : Cbor.dopts), keeps_on (W_cbor Oc D) (W_cbor Oc D).
+Proof. exact cbor_keeps_on. Qed.
+Print Assumptions C15_keeps_cbor_partial.
+
+(* simple, FULL: every SimpleHandle / decode option vector (EncZeroValuesAsNil, StringToRaw; SignedInteger,
+   RawToString), generic options O (first pass and typed decode) and O' (second pass), supported type, well-typed
+   value, map iteration order.  g = the tree of the first pass; it has no RawExt node, Encode(g) asks the driver
+   for exactly g, and the typed decode of the second pass's output gives the value up to simple's documented
+   losses -- applied ONCE (the normalisation is idempotent) -- and up to the order of map entries.
+   Leaf premise: C01's (no zero scalar under EncZeroValuesAsNil, no float32 signalling NaN, no unsigned >= 2^63
+   under SignedInteger) plus: under EncZeroValuesAsNil AND RawToString no empty non-nil []byte (it is the string
+   "" in the tree, which the second pass writes as nil: C15_simple_empty_bytes_lost). *)
+Theorem C15_same_simple : forall (o : Simple.eopts) (D : Simple.dopts) (O O' : gopts) (pi : order) (t : ty) (v : gv),
+  order_ok pi -> wt t v = true -> supported t = true ->
+  leaves_ok (W_simple_n o D) (to_item O pi v) = true ->
+  (Z.of_nat (depth (to_item O pi v)) < maxdepth O)%Z ->
+  let g := wn (W_simple o D) (to_item O pi v) in
+  plainb g = true /\ reenc O' g = g /\
+  of_item (W_simple o D) O 0 t (wn (W_simple o D) (reenc O' g)) = Ok (normL exact_losses O (arrange O pi v)) /\
+  veq (normL exact_losses O (arrange O pi v)) (normL exact_losses O v).
+Proof. exact simple_same. Qed.
+Print Assumptions C15_same_simple.
+
+Theorem C15_simple_empty_bytes_lost : forall (o : Simple.eopts) (D : Simple.dopts),
+  Simple.zeroAsNil o = true -> Simple.rawToString D = true ->
+  leaf_ok (W_simple o D) (IBytes []) = true /\
+  wn (W_simple o D) (wn (W_simple o D) (IBytes [])) = INil.
+Proof. exact simple_empty_bytes_lost. Qed.
+Print Assumptions C15_simple_empty_bytes_lost.
+
+(* msgpack, FULL: every option vector (WriteExt, NoFixedNum, PositiveIntUnsigned, StringToRaw; WriteExt,
+   RawToString, SignedInteger); leaf premise = C01's.  Without WriteExt a time is a raw 4/8/12-byte string in the
+   tree and DecodeTime reads it back from there on the second pass. *)
+Theorem C15_same_msgpack : forall (Of : Msgpack.eopts) (D : Msgpack.dopts) (O O' : gopts) (pi : order) (t : ty) (v : gv),
+  order_ok pi -> wt t v = true -> supported t = true ->
+  leaves_ok (W_msgpack Of D) (to_item O pi v) = true ->
+  (Z.of_nat (depth (to_item O pi v)) < maxdepth O)%Z ->
+  let g := wn (W_msgpack Of D) (to_item O pi v) in
+  plainb g = true /\ reenc O' g = g /\
+  of_item (W_msgpack Of D) O 0 t (wn (W_msgpack Of D) (reenc O' g)) = Ok (normL exact_losses O (arrange O pi v)) /\
+  veq (normL exact_losses O (arrange O pi v)) (normL exact_losses O v).
+Proof. exact msgpack_same. Qed.
+Print Assumptions C15_same_msgpack.
+
+(* binc, FULL: every option vector (AsSymbols, StringToRaw; SignedInteger, RawToString); losses: binc's (one zero,
+   one NaN), once; leaf premise = C01's *)
+Theorem C15_same_binc : forall (e : Binc.eopts) (d : Binc.dopts) (O O' : gopts) (pi : order) (t : ty) (v : gv),
+  order_ok pi -> wt t v = true -> supported t = true ->
+  leaves_ok (W_binc e d) (to_item O pi v) = true ->
+  (Z.of_nat (depth (to_item O pi v)) < maxdepth O)%Z ->
+  let g := wn (W_binc e d) (to_item O pi v) in
+  plainb g = true /\ reenc O' g = g /\
+  of_item (W_binc e d) O 0 t (wn (W_binc e d) (reenc O' g)) = Ok (normL binc_losses O (arrange O pi v)) /\
+  veq (normL binc_losses O (arrange O pi v)) (normL binc_losses O v).
+Proof. exact binc_same. Qed.
+Print Assumptions C15_same_binc.
+
+(* cbor, PARTIAL exactly as C01_cbor_roundtrip_bytes_partial: every value without a NON-ZERO time.Time (leaf
+   premise of W_cbor); every option vector otherwise.  Missing: times written as tag 1. *)
+Theorem C15_same_cbor_partial : forall (Oc : Cbor.eopts) (D : Cbor.dopts) (O O' : gopts) (pi : order) (t : ty) (v : gv),
+  order_ok pi -> wt t v = true -> supported t = true ->
+  leaves_ok (W_cbor Oc D) (to_item O pi v) = true ->
+  (Z.of_nat (depth (to_item O pi v)) < maxdepth O)%Z ->
+  let g := wn (W_cbor Oc D) (to_item O pi v) in
+  plainb g = true /\ reenc O' g = g /\
+  of_item (W_cbor Oc D) O 0 t (wn (W_cbor Oc D) (reenc O' g)) = Ok (normL cbor_losses O (arrange O pi v)) /\
+  veq (normL cbor_losses O (arrange O pi v)) (normL cbor_losses O v).
+Proof. exact cbor_same. Qed.
+Print Assumptions C15_same_cbor_partial.
+
+(* cbor with TimeRFC3339, times included (year 0..9999, nsec < 10^9: leaf premise of W_cbor_t).  Losses of the two
+   passes [cbor_t_losses]: time to the microsecond, and an instant that ROUNDS to the zero time is the zero time
+   in the tree, so the second pass writes it as nil (a pointer to it comes back nil) -- cbor_losses says that of
+   the zero time only. *)
+Theorem C15_same_cbor_rfc3339 : forall (Oc : Cbor.eopts) (D : Cbor.dopts) (O O' : gopts) (pi : order) (t : ty) (v : gv),
+  order_ok pi -> wt t v = true -> supported t = true ->
+  leaves_ok (W_cbor_t Oc D) (to_item O pi v) = true ->
+  (Z.of_nat (depth (to_item O pi v)) < maxdepth O)%Z ->
+  let g := wn (W_cbor_t Oc D) (to_item O pi v) in
+  plainb g = true /\ reenc O' g = g /\
+  of_item (W_cbor_t Oc D) O 0 t (wn (W_cbor_t Oc D) (reenc O' g)) = Ok (normL cbor_t_losses O (arrange O pi v)) /\
+  veq (normL cbor_t_losses O (arrange O pi v)) (normL cbor_t_losses O v).
+Proof. exact cbor_t_same. Qed.
+Print Assumptions C15_same_cbor_rfc3339.
+
+(* the tree g of the statements above is what the schema-less decode of the first pass's BYTES returns
+   ([naked_run]: the wire decoder model run on the wire encoder model's output), under the premises of the C01
+   byte-level compositions (the wire lemma's own: ranges, lengths, hashable and pairwise different map keys,
+   depth < MaxDepth, one MaxDepth for both layers) *)
+Theorem C15_tree_simple : forall (o : Simple.eopts) (D : Simple.dopts) (O : gopts) (pi : order) (t : ty) (v : gv),
+  order_ok pi -> wt t v = true -> supported t = true ->
+  Simple.maxDepthOpt D = max_depth O -> swfb o D (to_item O pi v) = true ->
+  leaves_ok (W_simple o D) (to_item O pi v) = true ->
+  (Z.of_nat (depth (to_item O pi v)) < maxdepth O)%Z ->
+  naked_run (FSimple o D) (to_item O pi v) = Ok (wn (W_simple o D) (to_item O pi v)).
+Proof. exact simple_tree. Qed.
+Print Assumptions C15_tree_simple.
+
+Theorem C15_tree_msgpack : forall (Of : Msgpack.eopts) (D : Msgpack.dopts) (O : gopts) (pi : order) (t : ty) (v : gv),
+  order_ok pi -> wt t v = true -> supported t = true ->
+  Msgpack.d_maxdepth D = max_depth O -> supportedb (to_item O pi v) = true ->
+  leaves_ok (W_msgpack Of D) (to_item O pi v) = true ->
+  (Z.of_nat (depth (to_item O pi v)) < maxdepth O)%Z ->
+  (Msgpack.len (Msgpack.enc Of (to_item O pi v)) < 2 ^ 63)%N ->
+  naked_run (FMsgpack Of D) (to_item O pi v) = Ok (wn (W_msgpack Of D) (to_item O pi v)).
+Proof. exact msgpack_tree. Qed.
+Print Assumptions C15_tree_msgpack.
+
+Theorem C15_tree_binc : forall (e : Binc.eopts) (d : Binc.dopts) (O : gopts) (pi : order) (t : ty) (v : gv),
+  order_ok pi -> wt t v = true -> supported t = true ->
+  Z.of_N (Binc.maxdepth d) = maxdepth O -> wfbb e d (to_item O pi v) = true ->
+  leaves_ok (W_binc e d) (to_item O pi v) = true ->
+  (Z.of_nat (depth (to_item O pi v)) < maxdepth O)%Z ->
+  naked_run (FBinc e d) (to_item O pi v) = Ok (wn (W_binc e d) (to_item O pi v)).
+Proof. exact binc_tree. Qed.
+Print Assumptions C15_tree_binc.
+
+Theorem C15_tree_cbor_partial : forall (Oc : Cbor.eopts) (D : Cbor.dopts) (O : gopts) (pi : order) (t : ty) (v : gv),
+  order_ok pi -> wt t v = true -> supported t = true ->
+  wf (to_item O pi v) -> CborConv.plain (to_item O pi v) ->
+  CborConv.lib_supports D (CborConv.tree_of Oc (to_item O pi v)) ->
+  (CborConv.tdepth D (CborConv.tree_of Oc (to_item O pi v)) < Cbor.maxdepth D)%Z ->
+  leaves_ok (W_cbor Oc D) (to_item O pi v) = true ->
+  (Z.of_nat (depth (to_item O pi v)) < maxdepth O)%Z ->
+  naked_run (FCbor Oc D) (to_item O pi v) = Ok (wn (W_cbor Oc D) (to_item O pi v)).
+Proof. exact cbor_tree. Qed.
+Print Assumptions C15_tree_cbor_partial.
+
+Theorem C15_tree_cbor_rfc3339 : forall (Oc : Cbor.eopts) (D : Cbor.dopts) (O : gopts) (pi : order) (t : ty) (v : gv),
+  Cbor.eo_rfc3339 Oc = true ->
+  order_ok pi -> wt t v = true -> supported t = true ->
+  wf (to_item O pi v) -> CborConv.plain (to_item O pi v) ->
+  CborConv.lib_supports_t D (CborConv.tree_of Oc (to_item O pi v)) ->
+  (CborConv.tdepth_t D (CborConv.tree_of Oc (to_item O pi v)) < Cbor.maxdepth D)%Z ->
+  leaves_ok (W_cbor_t Oc D) (to_item O pi v) = true ->
+  (Z.of_nat (depth (to_item O pi v)) < maxdepth O)%Z ->
+  naked_run (FCbor Oc D) (to_item O pi v) = Ok (wn (W_cbor_t Oc D) (to_item O pi v)).
+Proof. exact cbor_t_tree. Qed.
+Print Assumptions C15_tree_cbor_rfc3339.
+
 (* ---- non-vacuity ---- *)
 
 (* the three-step transcoding on a nested value: id driver -> tree -> cbor-shaped driver -> typed *)
@@ -196,3 +363,53 @@ Example C15_nums_total_nonvacuous :
   naked_run (fbinc false false true false) (IUint 9223372036854775808%N) = Err EOverflow /\
   naked_run (fmsgpack true false false false false true) (IUint 9223372036854775807%N) = Ok (IInt 9223372036854775807).
 Proof. repeat apply conj; vm_compute; reflexivity. Qed.
+
+(* C15_same on the concrete formats, both sides computed: value -> bytes -> tree -> bytes -> typed value, with the
+   format's own encoder / decoder models for the bytes (naked_run) and the typed decode through its driver record *)
+Definition ex2_ty : ty :=
+  TStruct [([97]%N, TMap TString (TSlice (TPtr (TUint W16)))); ([98]%N, TArray 2 TTime); ([99]%N, TBytes);
+           ([100]%N, TFloat F32); ([101]%N, TFloat F64); ([102]%N, TInt W64)].
+Definition ex2_val : gv :=
+  GStruct [([97]%N, GMap (Some [(GStr [107; 49]%N, GList (Some [GPtr (Some (GUint 300%N)); GPtr None])); (GStr [107; 50]%N, GList None)]));
+           ([98]%N, GArr [GTime 1700000000 123456789%N; GTime time_zero_sec 0%N]);
+           ([99]%N, GBytes (Some [1; 2; 3]%N)); ([100]%N, GF32 1069547520%N);
+           ([101]%N, GF64 9223372036854775808%N); ([102]%N, GInt (-7))].
+Definition ex2_pi : order := fun _ l => rev l.
+
+Example C15_same_concrete_nonvacuous :
+  wt ex2_ty ex2_val = true /\ supported ex2_ty = true /\
+  (* simple, EncZeroValuesAsNil off, StringToRaw, SignedInteger, RawToString *)
+  (let o := Simple.mkeopts false true in let D := Simple.mkdopts true true 0 in
+   let i := to_item ex_O ex2_pi ex2_val in
+   leaves_ok (W_simple_n o D) i = true /\
+   (do g <- naked_run (FSimple o D) i;; do g2 <- naked_run (FSimple o D) (reenc ex_O' g);; of_item (W_simple o D) ex_O 0 ex2_ty g2)
+     = Ok (normL exact_losses ex_O (arrange ex_O ex2_pi ex2_val))) /\
+  (* msgpack legacy layout (WriteExt off): the time travels as raw bytes through the tree *)
+  (let Of := Msgpack.mkeopts false false true false in let D := Msgpack.mkdopts false false true 0 in
+   let i := to_item ex_O ex2_pi ex2_val in
+   leaves_ok (W_msgpack Of D) i = true /\
+   (do g <- naked_run (FMsgpack Of D) i;; do g2 <- naked_run (FMsgpack Of D) (reenc ex_O' g);; of_item (W_msgpack Of D) ex_O 0 ex2_ty g2)
+     = Ok (normL exact_losses ex_O (arrange ex_O ex2_pi ex2_val))) /\
+  (* binc with symbols: -0.0 comes back +0.0 (binc_losses) *)
+  (let e := Binc.Build_eopts true false in let d := Binc.Build_dopts 1024 true false in
+   let i := to_item ex_O ex2_pi ex2_val in
+   leaves_ok (W_binc e d) i = true /\
+   (do g <- naked_run (FBinc e d) i;; do g2 <- naked_run (FBinc e d) (reenc ex_O' g);; of_item (W_binc e d) ex_O 0 ex2_ty g2)
+     = Ok (normL binc_losses ex_O (arrange ex_O ex2_pi ex2_val)) /\
+   normL binc_losses ex_O ex2_val <> normL exact_losses ex_O ex2_val) /\
+  (* cbor with TimeRFC3339, IndefiniteLength, OptimumSize *)
+  (let Oc := Cbor.mkeo true true false true in let D := Cbor.mkdo false false false 0 in
+   let i := to_item ex_O ex2_pi ex2_val in
+   leaves_ok (W_cbor_t Oc D) i = true /\ leaves_ok (W_cbor Oc D) i = false /\
+   (do g <- naked_run (FCbor Oc D) i;; do g2 <- naked_run (FCbor Oc D) (reenc ex_O' g);; of_item (W_cbor_t Oc D) ex_O 0 ex2_ty g2)
+     = Ok (normL cbor_t_losses ex_O (arrange ex_O ex2_pi ex2_val))) /\
+  (* the excluded corner of simple: an empty []byte under EncZeroValuesAsNil + RawToString comes back nil *)
+  (let o := Simple.mkeopts true false in let D := Simple.mkdopts false true 0 in
+   let i := to_item ex_O ex2_pi (GBytes (Some [])) in
+   leaves_ok (W_simple o D) i = true /\ leaves_ok (W_simple_n o D) i = false /\
+   (do g <- naked_run (FSimple o D) i;; do g2 <- naked_run (FSimple o D) (reenc ex_O' g);; of_item (W_simple o D) ex_O 0 TBytes g2)
+     = Ok (GBytes None)) /\
+  (* an instant that rounds to the zero time: a pointer to it comes back nil after the two passes *)
+  normL cbor_t_losses ex_O (GPtr (Some (GTime (time_zero_sec - 1) 999999500%N))) = GPtr None /\
+  normL cbor_losses ex_O (GPtr (Some (GTime (time_zero_sec - 1) 999999500%N))) = GPtr (Some (GTime time_zero_sec 0%N)).
+Proof. cbv zeta. repeat apply conj; try (vm_compute; reflexivity); vm_compute; discriminate. Qed.
